@@ -13,11 +13,19 @@ use serde_json::{json, Value};
 use similar::algorithms::{Capture, Compact, DiffHook, Replace};
 use similar::DiffOp;
 
-pub const STACKS: [&str; 3] = [
+pub const STACKS: [&str; 8] = [
     "Replace<Capture>",
     "Compact<Capture>",
     "Compact<Replace<Capture>>",
+    "Replace<&mut Capture>",
+    "Compact<&mut Capture>",
+    "Compact<&mut Replace<Capture>>",
+    "Compact<Replace<&mut Capture>>",
+    "Replace<&mut Compact<Capture>>",
 ];
+/// adapters whose output must carry exact indices / be in normal form
+const EXACT: [bool; 8] = [true, false, false, true, false, false, false, false];
+const NORMAL: [bool; 8] = [false, false, true, false, false, true, true, false];
 
 fn feed<D: DiffHook>(d: &mut D, script: &[DiffOp]) -> Result<(), D::Error> {
     for op in script {
@@ -38,10 +46,37 @@ fn replay_stack<T: PartialEq>(stack: usize, script: &[DiffOp], old: &[T], new: &
             feed(&mut d, script).unwrap();
             d.into_inner().into_ops()
         }
-        _ => {
+        2 => {
             let mut d = Compact::new(Replace::new(Capture::new()), old, new);
             feed(&mut d, script).unwrap();
             d.into_inner().into_inner().into_ops()
+        }
+        // the same adapters composed by reference: the sink (or the inner adapter) stays with
+        // the caller, who reads it once the outermost finish has returned
+        3 => {
+            let mut sink = Capture::new();
+            feed(&mut Replace::new(&mut sink), script).unwrap();
+            sink.into_ops()
+        }
+        4 => {
+            let mut sink = Capture::new();
+            feed(&mut Compact::new(&mut sink, old, new), script).unwrap();
+            sink.into_ops()
+        }
+        5 => {
+            let mut inner = Replace::new(Capture::new());
+            feed(&mut Compact::new(&mut inner, old, new), script).unwrap();
+            inner.into_inner().into_ops()
+        }
+        6 => {
+            let mut sink = Capture::new();
+            feed(&mut Compact::new(Replace::new(&mut sink), old, new), script).unwrap();
+            sink.into_ops()
+        }
+        _ => {
+            let mut inner = Compact::new(Capture::new(), old, new);
+            feed(&mut Replace::new(&mut inner), script).unwrap();
+            inner.into_inner().into_ops()
         }
     })
     .map_err(|p| format!("{}: panic: {}", STACKS[stack], p))
@@ -68,9 +103,9 @@ pub fn check_script_ranges<T: PartialEq>(
         }
     }
     let mut fp = Fp::new();
-    for stack in 0..3 {
+    for stack in 0..STACKS.len() {
         let out = replay_stack(stack, script, old, new)?;
-        let exact = stack == 0;
+        let exact = EXACT[stack];
         let st = validate_ops(&out, old, or.clone(), new, nr.clone(), exact).map_err(|e| {
             format!("{}: output is not a valid script: {} [output: {:?}]", STACKS[stack], e, out)
         })?;
@@ -80,7 +115,7 @@ pub fn check_script_ranges<T: PartialEq>(
                 STACKS[stack], del, ins, st.deleted, st.inserted, out
             ));
         }
-        if stack == 2 {
+        if NORMAL[stack] {
             normal_form(&out, old, new)
                 .map_err(|e| format!("{}: {} [output: {:?}]", STACKS[stack], e, out))?;
         }
